@@ -105,6 +105,38 @@ def _tau(rng, hnorm, imag, lo=0.05, hi=1.5):
     return (-1j * x) if imag else x
 
 
+KNOWN_CRASHES = ("evolve:qn2:normalize:raises-ValueError", "evolve:qn2:tdvp_ps2:raises-ValueError",
+                 "evolve:aux:tdvp_ps2:raises-KeyError")
+
+
+def _pick(rng, spec, method, p_norm=0.5, aux=False):
+    """normalize flag and scheme; the understood crashes are probed rarely so that the remaining
+    budget reaches everything else on two-component labels / auxiliary trees"""
+    normalize = bool(rng.random() < p_norm)
+    if spec["qn_size"] == 2:
+        normalize = bool(rng.random() < 0.08)
+        if method is PS2 and rng.random() < 0.85:
+            method = PS
+    if aux and method is PS2 and rng.random() < 0.8:
+        method = PS
+    return method, normalize
+
+
+def _classify(spec, fam, method, key, e):
+    """stable signatures of the genuine crashes of the pinned tree (see the final report / DESIGN §7)"""
+    msg = str(e)
+    if spec["qn_size"] == 2 and isinstance(e, ValueError) and "Inconsistent quantum number size" in msg:
+        # TTNS.expectation/ttns_norm/normalize build a 1-component BasisDummy -> every evolve(normalize=True)
+        return "evolve:qn2:normalize:raises-ValueError"
+    if spec["qn_size"] == 2 and method is PS2 and isinstance(e, ValueError) and "reshape" in msg:
+        # TTNS.update_2site: dim1 = np.prod(qnbigl.shape) counts the label axis
+        return "evolve:qn2:tdvp_ps2:raises-ValueError"
+    if fam == "aux" and method is PS2 and isinstance(e, KeyError):
+        # hop_expr2 -> _get_hdiag cannot handle physical indices absent from the operator
+        return "evolve:aux:tdvp_ps2:raises-KeyError"
+    return f"evolve:{key}:raises:{type(e).__name__}"
+
+
 class Ctx:
     def __init__(self, run, rng, quick):
         self.run, self.rng, self.quick = run, rng, quick
@@ -136,8 +168,11 @@ def _evolve_checked(cx, fam, spec, ttno, h, lab, q, t, method, tau, normalize, t
     try:
         new = t.evolve(ttno, tau, normalize=normalize)
     except Exception as e:  # the property promises a result for every input generated here
-        run.violation(f"evolve:{key}:raises:{type(e).__name__}", rep(error=repr(e)[:300]))
-        return None
+        sig = _classify(spec, fam, method, key, e)
+        run.violation(sig, rep(error=repr(e)[:300]))
+        # after one of the three understood crashes the history goes on from the (possibly in-place
+        # evolved, D6) input; anything else ends the case
+        return t if sig in KNOWN_CRASHES else None
     # ---- alias (C13)
     same = new is t
     d = L.snapshot_diff(t, snap)
@@ -214,10 +249,9 @@ def fam_exact(cx):
     run.count("dummy-nodes", sum(1 for n in spec["nodes"] if not n["sets"]))
     run.count("multi-basis-nodes", sum(1 for n in spec["nodes"] if len(n["sets"]) > 1))
     for k in range(nstep):
-        method = METHODS[int(methods[k % 4])]
+        method, normalize = _pick(rng, spec, METHODS[int(methods[k % 4])])
         imag = bool(rng.random() < 0.5)
         tau = _tau(rng, hn, imag, 0.05, 2.0 if method is not PC else 0.8)
-        normalize = bool(rng.random() < 0.5)
         tight = bool(method is not VMF or rng.random() < 0.7)
         hist.append((method, tau, normalize))
         new = _evolve_checked(cx, "exact", spec, ttno, h, lab, q, t, method, tau, normalize, TOL_EXACT, state0, hist,
@@ -275,10 +309,9 @@ def fam_cluster(cx):
     methods = list(rng.permutation(3))     # the three TDVP schemes; P&C is covered by `exact`
     nstep = int(rng.integers(1, 4))
     for k in range(nstep):
-        method = METHODS[int(methods[k % 3])]
+        method, normalize = _pick(rng, spec, METHODS[int(methods[k % 3])])
         imag = bool(rng.random() < 0.5)
         tau = _tau(rng, hn, imag, 0.05, 2.0)
-        normalize = bool(rng.random() < 0.5)
         hist.append((method, tau, normalize))
         new = _evolve_checked(cx, "cluster", spec, ttno, h, lab, q, t, method, tau, normalize, TOL_EXACT, state0, hist)
         if new is None:
@@ -305,7 +338,9 @@ def fam_order(cx):
         run.count("rejected:trivial-sector")
         return
     imag = bool(rng.random() < 0.5)
-    total = float(np.round(rng.uniform(0.6, 1.2) / hn, 4))
+    # x = rho(H restricted to the sector) * T in [0.15, 0.3]: the leading term x^5/120 dominates the next
+    # one by >= 5/(x) so that the observed order over halvings is 4 - O(x) (>= 3.7); errors 1e-9..1e-6
+    total = float(np.round(rng.uniform(0.15, 0.3) / np.linalg.norm(hs, 2), 5))
     psi0 = L.dense_ttns(t0)
     ref = L.expm_apply(h, psi0, (-1j * total) if imag else total)
     errs = []
@@ -370,7 +405,7 @@ def fam_ps_any(cx):
     nlocal = 0
     for k in range(nstep):
         tau = _tau(rng, hn, imag, 0.05, 1.5)
-        normalize = bool(rng.random() < 0.3)
+        _, normalize = _pick(rng, spec, PS, 0.3)
         hist.append((PS, tau, normalize))
         new = _evolve_checked(cx, "ps-any", spec, ttno, h, lab, q, t, PS, tau, normalize, None, state0, hist)
         if new is None:
@@ -442,10 +477,9 @@ def fam_chain(cx):
         run.violation("chain:from_mps:state-differs", dict(spec=spec, np_seed=seed, diff=float(np.linalg.norm(tree_vec(ttns) - psi0))))
         return
     hn = np.linalg.norm(h, 2)
-    method = METHODS[int(rng.integers(4))]
+    method, normalize = _pick(rng, spec, METHODS[int(rng.integers(4))])
     imag = bool(rng.random() < 0.5)
     tau = _tau(rng, hn, imag, 0.05, 1.5 if method is not PC else 0.6)
-    normalize = bool(rng.random() < 0.5)
     key = f"chain:{NAME[method]}:{'imag' if imag else 'real'}"
     run.count("call:" + key)
     cx.distinct.add(("chain", nsite, NAME[method], imag, spec["qn_size"]))
@@ -456,7 +490,7 @@ def fam_chain(cx):
     try:
         new_t = ttns.evolve(ttno, tau, normalize=normalize)
     except Exception as e:
-        run.violation(f"evolve:{key}:raises:{type(e).__name__}", dict(rep, error=repr(e)[:300]))
+        run.violation(_classify(spec, "chain", method, key, e), dict(rep, error=repr(e)[:300]))
         return
     got_t = tree_vec(new_t) * new_t.coeff
     ref = L.expm_apply(h, psi0, tau)
@@ -536,10 +570,9 @@ def fam_aux(cx):
     cx.distinct.add(("aux", len(spec["nodes"]), spec["qn_size"], tuple(sorted(b["kind"] for b in spec["basis"]))))
     methods = list(rng.permutation(4))
     for k in range(int(rng.integers(1, 3))):
-        method = METHODS[int(methods[k])]
+        method, normalize = _pick(rng, spec, METHODS[int(methods[k])], aux=True)
         imag = bool(rng.random() < 0.6)
         tau = _tau(rng, hn, imag, 0.05, 1.5 if method is not PC else 0.6)
-        normalize = bool(rng.random() < 0.5)
         hist.append((method, tau, normalize))
         new = _evolve_checked(cx, "aux", spec, ttno, hfull, lab, q, t, method, tau, normalize, TOL_EXACT, state0, hist)
         if new is None:
